@@ -131,6 +131,16 @@ func (w *World) Until(pred func() bool) {
 	}
 }
 
+// Close calls Vaxis.Close the way an application does and checks, the moment it returns, that the shutdown is
+// over (the console has been closed: the last step of it) - also when another goroutine's Close was already
+// under way.
+func (w *World) Close() {
+	w.Vx.Close()
+	if w.Con.Closes == 0 {
+		w.Failf("close-returned-early", "Close returned while the shutdown was still going on (the console has not been closed yet)")
+	}
+}
+
 func (w *World) CheckCursor(row, col int) {
 	tr, tc, _ := w.T.Cursor()
 	if row == -1 && col == -1 && w.atTimeout.seen && w.atTimeout.released && w.atTimeout.handled {
